@@ -1,7 +1,7 @@
 (* C02 — shutdown always terminates cleanly; pause and resume make progress.
-   Only statements; proofs in Proofs/ThreadsInv.v, Proofs/ThreadsInv2.v, Proofs/ThreadsMon.v, Proofs/ThreadsLive.v. *)
+   Only statements; proofs in Proofs/ThreadsInv.v, Proofs/ThreadsInv2.v, Proofs/ThreadsMon.v, Proofs/ThreadsLive.v, Proofs/ThreadsInterrupt.v, Proofs/ThreadsWithdrawn.v. *)
 From Coq Require Import List Bool Arith.
-From Pamiq Require Import Model.Threads Check.Sys Proofs.ThreadsInv Proofs.ThreadsInv2 Proofs.ThreadsMon Proofs.ThreadsLive Proofs.ThreadsInterrupt.
+From Pamiq Require Import Model.Threads Check.Sys Proofs.ThreadsInv Proofs.ThreadsInv2 Proofs.ThreadsMon Proofs.ThreadsLive Proofs.ThreadsInterrupt Proofs.ThreadsWithdrawn.
 Import ListNotations.
 
 (* For any number of threads, any attempt limit, EVERY accepted trace (all command histories incl.
@@ -98,3 +98,12 @@ Theorem C02_interrupt_enters_finally : forall n kind max_attempts with_web s s',
   running s' = running s /\ craised s' = craised s /\ bp s' = bp s /\ pf s' = pf s /\ ex s' = ex s.
 Proof. exact interrupt_enters_finally. Qed.
 Print Assumptions C02_interrupt_enters_finally.
+
+(* "Pause and resume make progress": a pause that was given up is withdrawn.  On every accepted trace, whenever a
+   control tick begins the resume event is set or the pause has been acknowledged (the clock is paused): a try_pause()
+   that fails ends with resume(), whichever attempt was the last one, so no thread is left waiting for a resume on
+   behalf of a request the control thread has abandoned. *)
+Theorem C02_abandoned_pause_is_withdrawn : forall n kind max_attempts qmax with_web tr s,
+  run n kind max_attempts qmax with_web init tr = Some s -> C02_withdrawn tr = true.
+Proof. exact C02_withdrawn_holds. Qed.
+Print Assumptions C02_abandoned_pause_is_withdrawn.
